@@ -114,8 +114,11 @@ def subst(obj: Any, mapping: Dict[str, Any]) -> Any:
 
 
 def to_message(wire: Any) -> Any:
-    from chuk_mcp.protocol.messages.json_rpc_message import parse_message
+    from chuk_mcp.protocol.messages.json_rpc_message import JSONRPCMessage, parse_message
 
+    if isinstance(wire, dict) and "$direct" in wire:
+        # a message object built directly (bypassing the parser), e.g. an error without 'message'
+        return JSONRPCMessage(jsonrpc="2.0", id=wire["id"], error=wire["$direct"])
     return parse_message(wire)
 
 
